@@ -9,6 +9,8 @@ package main
 
 import (
 	"regexp"
+	"runtime"
+	"strings"
 	"sync/atomic"
 	"time"
 )
@@ -45,3 +47,70 @@ func watchdogExpired(t *Trace) bool {
 // confirmedHangs counts findings that showed again under the long limits; after a few of them the
 // re-execution is skipped (the violation is established, and each confirmation costs the long limit).
 var confirmedHangs atomic.Int64
+
+// ---- evidence of a deadlock ----
+//
+// A deadlock that needs an interleaving does not show again when the case is executed alone, so the
+// re-execution above would discard it. When a watchdog expires the harness therefore looks at the
+// goroutines of the code under test: if the same goroutines are parked on a mutex (inside gribigo
+// code) in three dumps spread over three seconds, something holds a lock and is not coming back —
+// a slow machine shows different goroutines waiting at different moments, because the holders make
+// progress. Such a case is reported without asking for it to show again.
+
+var lockWedges atomic.Int64
+
+var goroutineHdr = regexp.MustCompile(`^goroutine (\d+) \[([^\]]*)\]`)
+
+// mutexWaiters returns the ids of the goroutines that are parked acquiring a sync.Mutex /
+// sync.RWMutex from gribigo code, with the frame that asked for the lock.
+func mutexWaiters() map[string]string {
+	buf := make([]byte, 16<<20)
+	n := runtime.Stack(buf, true)
+	out := map[string]string{}
+	for _, g := range strings.Split(string(buf[:n]), "\n\n") {
+		lines := strings.Split(g, "\n")
+		m := goroutineHdr.FindStringSubmatch(lines[0])
+		if m == nil {
+			continue
+		}
+		st := m[2]
+		if !(strings.HasPrefix(st, "sync.Mutex.Lock") || strings.HasPrefix(st, "sync.RWMutex.Lock") || strings.HasPrefix(st, "sync.RWMutex.RLock") || strings.HasPrefix(st, "semacquire")) {
+			continue
+		}
+		site := ""
+		for _, l := range lines[1:] {
+			if strings.Contains(l, "github.com/openconfig/gribigo/") && !strings.HasPrefix(l, "\t") {
+				site = strings.TrimSpace(l)
+				if i := strings.Index(site, "("); i > 0 {
+					site = site[:i]
+				}
+				break
+			}
+		}
+		if site != "" {
+			out[m[1]] = site
+		}
+	}
+	return out
+}
+
+// noteIfWedged is called where a watchdog has just expired.
+func noteIfWedged() {
+	a := mutexWaiters()
+	if len(a) == 0 {
+		return
+	}
+	for i := 0; i < 2; i++ {
+		time.Sleep(1500 * time.Millisecond)
+		b := mutexWaiters()
+		for id, site := range a {
+			if b[id] != site {
+				delete(a, id)
+			}
+		}
+		if len(a) == 0 {
+			return
+		}
+	}
+	lockWedges.Add(1)
+}
